@@ -222,3 +222,114 @@ Lemma example_c14 : Rep1 2 (fun t => t) (mkDual 2 1) /\ lk (T:=R) L_bessel_j0 1 
 Proof.
   split; [split; [reflexivity|simpl; apply (is_derive_id (K:=R_AbsRing) 2)]|]. rcbv. lra.
 Qed.
+
+(* ---- locality: a representation transfers along functions that agree near t0; a differentiable curve stays on its side of a threshold near t0 ---- *)
+Lemma rep_ext_loc t0 (f g : R -> R) d : Rep1 t0 f d -> locally t0 (fun t => f t = g t) -> Rep1 t0 g d.
+Proof.
+  intros [A B] H. split.
+  - rewrite A. apply (locally_singleton _ _ H).
+  - apply (is_derive_ext_loc f g t0 _ H B).
+Qed.
+Lemma locally_gt (v : R -> R) t0 l a : is_derive v t0 l -> a < v t0 -> locally t0 (fun t => a < v t).
+Proof.
+  intros D H. assert (C : continuous v t0) by (apply (ex_derive_continuous v t0); exists l; exact D).
+  apply (C (fun y => a < y)). apply (open_gt a (v t0) H).
+Qed.
+Lemma locally_lt (v : R -> R) t0 l a : is_derive v t0 l -> v t0 < a -> locally t0 (fun t => v t < a).
+Proof.
+  intros D H. assert (C : continuous v t0) by (apply (ex_derive_continuous v t0); exists l; exact D).
+  apply (C (fun y => y < a)). apply (open_lt a (v t0) H).
+Qed.
+
+(* ---- the same branch selection on the reals ---- *)
+Ltac solve_if := match goal with |- context [if ?b then _ else _] =>
+  first [ let E := fresh in assert (E : b = true) by (rcbv; unfold Rleb, Rltb; dec_R; reflexivity); rewrite E; clear E
+        | let E := fresh in assert (E : b = false) by (rcbv; unfold Rleb, Rltb; dec_R; reflexivity); rewrite E; clear E ] end.
+Lemma lits_j0 : lk (T:=R) L_bessel_j0 1 = 1 / 100000 /\ lk (T:=R) L_bessel_j0 0 = 5.
+Proof. split; rcbv; lra. Qed.
+Lemma j0_branches_R (r : R) : 0 <= r ->
+  (r < lk (T:=R) L_bessel_j0 1 -> bessel_j0 (T:=R) r = j0_small (r * r)%rs) /\
+  (lk (T:=R) L_bessel_j0 1 <= r <= lk (T:=R) L_bessel_j0 0 -> bessel_j0 (T:=R) r = j0_mid (r * r)%rs) /\
+  (lk (T:=R) L_bessel_j0 0 < r -> bessel_j0 (T:=R) r = j0_asym r).
+Proof.
+  intros H0. destruct lits_j0 as [E1 E0]. rewrite E1, E0. unfold bessel_j0.
+  repeat split; intros; repeat solve_if; reflexivity.
+Qed.
+
+(* ---- bessel_j0 itself, on the open middle and outer ranges: value and derivative of the real function bessel_j0 computes ---- *)
+Theorem j0_derivative_mid t0 v x : Rep1 t0 v x -> lk (T:=R) L_bessel_j0 1 < v t0 < lk (T:=R) L_bessel_j0 0 ->
+  Rep1 t0 (fun t => bessel_j0 (T:=R) (v t)) (bessel_j0 x).
+Proof.
+  intros H [Ha Hb]. destruct lits_j0 as [E1 E0]. pose proof H as [Hre Hd].
+  assert (Hx : m_re x = v t0) by exact Hre.
+  destruct (j0_branches x) as [_ [Bm _]]. rewrite Bm by (rewrite Hx; lra).
+  apply (rep_ext_loc t0 (fun t => j0_mid (T:=R) (v t * v t)%rs)); [apply rep_j0_mid'; exact H|].
+  pose proof (locally_gt v t0 _ _ Hd Ha) as La. pose proof (locally_lt v t0 _ _ Hd Hb) as Lb.
+  apply (filter_imp (fun t => lk (T:=R) L_bessel_j0 1 < v t /\ v t < lk (T:=R) L_bessel_j0 0)); [|apply filter_and; assumption].
+  intros t [Ta Tb]. destruct (j0_branches_R (v t) ltac:(lra)) as [_ [Bm' _]]. rewrite Bm' by lra. reflexivity.
+Qed.
+Theorem j0_derivative_outer t0 v x : Rep1 t0 v x -> lk (T:=R) L_bessel_j0 0 < v t0 ->
+  Rep1 t0 (fun t => bessel_j0 (T:=R) (v t)) (bessel_j0 x).
+Proof.
+  intros H Ha. destruct lits_j0 as [E1 E0]. pose proof H as [Hre Hd].
+  assert (Hx : m_re x = v t0) by exact Hre.
+  destruct (j0_branches x) as [_ [_ Bo]]. rewrite Bo by (rewrite Hx; lra).
+  apply (rep_ext_loc t0 (fun t => j0_asym (T:=R) (v t))); [apply rep_j0_asym'; [exact H|lra]|].
+  pose proof (locally_gt v t0 _ _ Hd Ha) as La.
+  apply (filter_imp (fun t => lk (T:=R) L_bessel_j0 0 < v t)); [|exact La].
+  intros t Ta. destruct (j0_branches_R (v t) ltac:(lra)) as [_ [_ Bo']]. rewrite Bo' by lra. reflexivity.
+Qed.
+
+(* ---- bessel_j1 on the open range |x| < 5 (both signs): value and derivative of the real function ---- *)
+Lemma lits_j1 : lk (T:=R) L_bessel_j1 0 = 5.
+Proof. rcbv; lra. Qed.
+Lemma re_abs_Dual (d : Dual R) : m_re (m_abs d) = Rabs (m_re d).
+Proof. destruct d as [r e]. rcbv. unfold Rleb. destruct (Rle_dec 0 r); simpl; unfold Rabs; destruct (Rcase_abs r); lra. Qed.
+Lemma Rleb_abs r c : Rabs r <= c -> Rleb (Rabs r) c = true.
+Proof. intros H. unfold Rleb. destruct (Rle_dec (Rabs r) c); [reflexivity|contradiction]. Qed.
+Lemma j1_branch_Dual (d : Dual R) : Rabs (m_re d) <= lk (T:=R) L_bessel_j1 0 -> bessel_j1 d = j1_mid d.
+Proof.
+  intros H. unfold bessel_j1. cbv zeta. change (@hleb R R _) with Rleb.
+  match goal with |- context [Rleb ?t ?c] => replace t with (Rabs (m_re d)) by (symmetry; exact (re_abs_Dual d)); change c with (lk (T:=R) L_bessel_j1 0) end.
+  rewrite (Rleb_abs _ _ H). reflexivity.
+Qed.
+Lemma j1_branch_R (r : R) : Rabs r <= lk (T:=R) L_bessel_j1 0 -> bessel_j1 (T:=R) r = j1_mid r.
+Proof.
+  intros H. unfold bessel_j1. cbv zeta. change (@hleb R R _) with Rleb.
+  match goal with |- context [Rleb ?t ?c] => change t with (Rabs r); change c with (lk (T:=R) L_bessel_j1 0) end.
+  rewrite (Rleb_abs _ _ H). reflexivity.
+Qed.
+Theorem j1_derivative_mid t0 v x : Rep1 t0 v x -> Rabs (v t0) < lk (T:=R) L_bessel_j1 0 ->
+  Rep1 t0 (fun t => bessel_j1 (T:=R) (v t)) (bessel_j1 x).
+Proof.
+  intros H Ha. pose proof lits_j1 as E0. pose proof H as [Hre Hd].
+  assert (Hx : m_re x = v t0) by exact Hre.
+  rewrite (j1_branch_Dual x) by (rewrite Hx; lra).
+  apply (rep_ext_loc t0 (fun t => j1_mid (T:=R) (v t))); [apply rep_j1_mid'; exact H|].
+  rewrite E0 in Ha. apply Rabs_def2 in Ha. destruct Ha as [Hb Hc].
+  pose proof (locally_gt v t0 _ _ Hd Hc) as La. pose proof (locally_lt v t0 _ _ Hd Hb) as Lb.
+  apply (filter_imp (fun t => -5 < v t /\ v t < 5)); [|apply filter_and; assumption].
+  intros t [Ta Tb]. rewrite j1_branch_R; [reflexivity|]. rewrite E0. apply Rabs_le_between. lra.
+Qed.
+
+(* ---- bessel_j2 on the open range |x| < 0.25 (its power series) ---- *)
+Lemma lits_j2 : lk (T:=R) L_bessel_j2 0 = 1 / 4.
+Proof. rcbv; lra. Qed.
+Lemma j2_branch_R (r : R) : Rabs r < lk (T:=R) L_bessel_j2 0 -> bessel_j2 (T:=R) r = j2_series r.
+Proof.
+  intros H. unfold bessel_j2. change (@hltb R R _) with Rltb.
+  match goal with |- context [Rltb ?t ?c] => change t with (Rabs r); change c with (lk (T:=R) L_bessel_j2 0) end.
+  unfold Rltb. destruct (Rlt_dec (Rabs r) (lk (T:=R) L_bessel_j2 0)); [reflexivity|contradiction].
+Qed.
+Theorem j2_derivative_small t0 v x : Rep1 t0 v x -> Rabs (v t0) < lk (T:=R) L_bessel_j2 0 ->
+  Rep1 t0 (fun t => bessel_j2 (T:=R) (v t)) (bessel_j2 x).
+Proof.
+  intros H Ha. pose proof lits_j2 as E0. pose proof H as [Hre Hd].
+  assert (Hx : m_re x = v t0) by exact Hre.
+  destruct (j2_branches x) as [Bs _]. rewrite Bs by (rewrite Hx; exact Ha).
+  apply (rep_ext_loc t0 (fun t => j2_series (T:=R) (v t))); [apply rep_j2_series; exact H|].
+  rewrite E0 in Ha. apply Rabs_def2 in Ha. destruct Ha as [Hb Hc].
+  pose proof (locally_gt v t0 _ _ Hd Hc) as La. pose proof (locally_lt v t0 _ _ Hd Hb) as Lb.
+  apply (filter_imp (fun t => - (1 / 4) < v t /\ v t < 1 / 4)); [|apply filter_and; assumption].
+  intros t [Ta Tb]. rewrite j2_branch_R; [reflexivity|]. rewrite E0. apply Rabs_def1; lra.
+Qed.
